@@ -67,6 +67,37 @@ def run(ctx):
                                    for cs in p.calls_from(f_) for t in cs.targets},
                        '%s reaches the bare Base58 decoder without the checksum' % q, fi.where)
     # ---------------------------------------------------------------- alphabet and raising lookup
+    # "for every non-empty byte string ... for every string over the alphabet": nothing on the way may cut the input to a
+    # fixed size.  `zip(input, TABLE)` with a table of fixed length silently drops whatever lies beyond it.
+    with ctx.obligation('C10.TOTAL', 'Base58 functions consume their whole input', None, 'btc_hd_wallet/helper.py') as ob:
+        from ..evalr import _fixed_items
+        roots = [p.get_function('helper.' + q) for q in ('encode_base58', 'decode_base58', 'encode_base58_checksum', 'decode_base58_checksum')]
+        evm = Evaluator(p, 'ecdsa')
+        n_fn = 0
+        for fi in p.reachable_from(roots):
+            if not fi.module.name.endswith('helper'):
+                continue
+            n_fn += 1
+            for n in ast.walk(fi.node):
+                if isinstance(n, ast.Call) and isinstance(n.func, ast.Name) and n.func.id == 'zip' and len(n.args) >= 2:
+                    fixed, free = [], []
+                    for a in n.args:
+                        items = None
+                        if isinstance(a, ast.Name) and a.id in fi.module.assigns:
+                            items = _fixed_items(evm.module_const('helper', a.id))
+                        elif isinstance(a, (ast.Tuple, ast.List, ast.Constant)):
+                            items = True
+                        elif isinstance(a, ast.Call) and isinstance(a.func, ast.Name) and a.func.id == 'range' and \
+                                all(isinstance(x, ast.Constant) for x in a.args):
+                            items = True
+                        (fixed if items is not None else free).append(ast.unparse(a))
+                    ob.require(not (fixed and free), 'zip(%s) pairs the data with a table of fixed length: elements beyond it are '
+                               'silently dropped (long inputs decode / encode as their truncation)' % ', '.join(fixed + free),
+                               '%s:%d' % (fi.module.relpath, n.lineno))
+            ob.evaluations += 1
+        ob.saw('btc_hd_wallet/helper.py')
+        if n_fn < 4:
+            ob.undecided('the Base58 functions were not found in helper (%d)' % n_fn)
     with ctx.obligation('C10.ALPHA', 'helper.BASE58_ALPHABET', None, 'btc_hd_wallet/helper.py') as ob:
         ev = Evaluator(p, 'ecdsa')
         a = ev.module_const('helper', 'BASE58_ALPHABET')
